@@ -526,6 +526,20 @@ Definition stableb (L : lex) (s : schema) (c : cas) : bool :=
   | _ => false
   end.
 
+(* further premises of "every reference of the document resolves" (C04): no structure carries the id 0 (cas:NULL is an
+   XMI notion; _find_all_fs skips such structures while references to them would still be written); the schema calls
+   exactly the subtypes of ArrayBase arrays (the writer tests the name, the traversal the supertype); the feature `sofa`
+   of a structure found holds a Sofa, never another feature structure (the traversal does not follow it) *)
+Definition refs_wfb (s : schema) (c : cas) : bool :=
+  forallb (fun p => negb (is_null_id (snd p))) (c_heap c)
+  && forallb (fun ti => Bool.eqb (is_array_name (ti_name ti)) (match is_array_type ti with Ok b => b | _ => false end)) s
+  && match find_all_fs true s c with
+     | Ok w => forallb (fun io => match hget (c_heap c) (snd io) with
+                                  | Some f => match slot f "sofa" with VRef _ => false | _ => true end
+                                  | None => false end) (w_all w)
+     | _ => false
+     end.
+
 (* ---- the pre-c9a01e4 rule, kept for the refutation: DocumentAnnotation was never written to %TYPES ---- *)
 Definition ser_types_old (s : schema) (mode : tsmode) (used : list tname) : res (list (string * json)) :=
   match mode with
